@@ -39,6 +39,7 @@ type hostRow struct {
 	Wsc     int      `json:"wsc"`
 	Dur     string   `json:"dur"`
 	Reach   bool     `json:"reach"`
+	DataLag int64    `json:"datalag"`
 }
 
 func nn(s []string) []string {
@@ -60,7 +61,7 @@ func (s *vSim) hostsSnapshot(lock bool) map[string]hostRow {
 		v := x.View()
 		m[h] = hostRow{Up: v.Up, RO: v.RO, Offline: v.Offline, Src: v.Src, IO: v.IO, SQL: v.SQL, IOErr: v.IOErr, SQLErr: v.SQLErr,
 			Exec: nn(v.Exec), Recv: nn(v.Recv), Pend: nn(v.Pend), SsM: v.SsM, SsS: v.SsS, SsSAct: v.SsSAct, Wsc: v.Wsc, Dur: v.Dur,
-			Reach: v.Up && v.Net == "ok"}
+			Reach: v.Up && v.Net == "ok", DataLag: s.W.DataLagOf(x)}
 	}
 	return m
 }
